@@ -15,4 +15,8 @@ CFG = dict(
              "opacity step is stated in the stored (sigmoid) domain, not through the logit",
              "point clouds whose index buffer is not the identity (Write uses positions 0..count-1)"],
     assumptions=["byte(x) on 0 <= x < 256 truncates toward zero (Go spec for in-range float->integer conversion)"],
+    manifest=dict(
+        text="Lean 4 theorems about models of formats/splat and formats/spz: .splat write->read returns the same number of splats in order for every cloud (induction over records), every 32-byte record round-trips bit for bit (positions = the stored float32 exactly), scale = log(float32(exp s)), and over the reals (byte() = integer part) colour and opacity come back within 1/255 in the stored domain (colours clamped), rotation within 1/128 for every component in [-1,1] INCLUDING 1 (with the closed witness that the un-clamped encoder sends 1 to -1); SPZ: 24-bit sign extension on BitVec 32 for all byte triples (kernel-checked, no SAT certificate), coordinate = value/2^fb, and for every valid header (version 1-2, SH degree 0-3, any fractional-bit count) and EVERY byte pattern, decoding a stream built by a reference encoder written from the published layout yields for splat i exactly the dequantisation of record i with all attribute arrays of the declared length (planar strides, half-float and fixed-point positions, per-point SH interleaving), plus the payload length formula. Tie: byte-exact splat.Write vs model (exp supplied as a table of math.Exp values), splat.Read and spz.Read(gzip(stream)) vs model bit for bit on arbitrary byte patterns, and the theorem predicates (step bounds, splat i = dequant(record i), PLY splat export = float32 rounding) evaluated on the implementation's outputs.",
+        note="Trusted: Lean kernel + 3 standard axioms; harness incl. its reference SPZ encoder; Lean Float32 conversions vs Go; gzip. Not proved: float rounding of exp/log/sigmoid (scale tolerance observed by the oracle), the PLY splat export (oracle only; PLY codec is C04), halfToFloat vs IEEE binary16 (transcribed, tied bit for bit). Observation: fractionalBits >= 63 makes Go's 1<<fb wrap (mirrored by the model; value/2^fb stated for fb <= 62).",
+        technique="Lean 4 proof (record-list induction, real-number quantisation bounds, BitVec sign extension, planar-index lemmas against a reference encoder) + bit-exact correspondence on arbitrary byte patterns + compiled oracles"),
 )
